@@ -296,7 +296,7 @@ def small_wf_trees(roles, maxnodes, maxbranches, maxtotal, concepts=(False, True
 
 ROLES = [':ARG0', ':ARG1', ':ARG0-of', ':ARG1-of', ':op1', ':op2', ':op10', ':mod', ':mod-of', ':domain',
          ':polarity', ':quant', ':consist-of', ':consist-of-of', ':prep-on-behalf-of', ':a', ':a-of', ':b-of',
-         ':x-y', ':', ':-of']
+         ':x-y', ':', ':-of', ':ARG0-OF', ':PART-Of', ':MOD-OF', ':op01', ':op003', ':op02']
 ATOMS = ['x', 'y', '-', '"s t"', '"(~)"', '1', '2.5', 'dog', '"a~b"', '7', '+']
 ALNS = ['~1', '~e.2', '~e.2,3', '~E.1', '~x7', '~0,10', '~7,2', '~e.12,10,11', '~9,4,4']
 BAD_ALNS = ['~e.01', '~01', '~e.1,02', '~~1']
